@@ -61,7 +61,8 @@ DbalOk(e) ==
     LET P == e.picks
         total == C3(e.n)
         want == IF total < e.budget THEN total ELSE e.budget
-    IN /\ Check(tid, 1, "count", Len(P) = want)
+    \* (how many triples are drawn below the budget is not part of C15; when the budget covers them, all of them exactly once)
+    IN /\ Check(tid, 1, "count-when-budget-covers", total <= e.budget => Len(P) = total)
        /\ Check(tid, 1, "index-in-range", \A p \in 1..Len(P) : P[p].ind \in 0..total - 1)
        /\ Check(tid, 1, "indices-distinct", Cardinality({P[p].ind : p \in 1..Len(P)}) = Len(P))
        /\ Check(tid, 1, "triple-shape", \A p \in 1..Len(P) :
